@@ -209,10 +209,77 @@ def inplace_law(ctx):
         if lrn.seen[-1] != then or a != then[-1]:
             ctx.fail(["inplace", "stale-actions"], "after the list was edited in place to %r the learner was shown %r and the evaluator received %r" % (then, lrn.seen[-1], a), case)
 
+def mixed_batch_law(ctx):
+    """a learner whose predict understands batches while its learn takes one interaction at a time (or the other way round): each method is called the way it understands"""
+    from coba.safety import SafeLearner
+    from coba.primitives import is_batch
+    from coba.environments.filters import Batch
+    class Mixed:
+        def __init__(self, pb, lb): self.pb, self.lb, self.learned, self.pcalls = pb, lb, [], 0
+        def predict(self, context, actions):
+            self.pcalls += 1
+            if is_batch(actions):
+                if not self.pb: raise Exception("predict takes one interaction")
+                return [(A[0], 1.0) for A in actions]
+            return actions[0], 1.0
+        def learn(self, context, action, reward, probability, **kw):
+            if is_batch(action) or is_batch(reward):
+                if not self.lb: raise Exception("learn takes one interaction")
+                self.learned += list(zip(action, reward, probability))
+            else: self.learned.append((action, reward, probability))
+    for pb, lb in ((True, False), (False, True), (True, True), (False, False)):
+        for B in (1, 2, 3):
+            case = dict(what="mixed batching", predict_batched=pb, learn_batched=lb, batch=B)
+            ctx.count("mixed-batch", repr(case), True)
+            A = Batch.List([[10 + b, 20 + b, 30 + b] for b in range(B)]); X = Batch.List([None] * B)
+            try:
+                lrn = Mixed(pb, lb); safe = SafeLearner(lrn, 1)
+                a, p, kw = safe.predict(X, A)
+                safe.learn(X, Batch.List(a), Batch.List([0.5] * B), Batch.List(p), **kw)
+            except Exception as e:
+                ctx.fail(["mixed-batch", "raises", errname(e)], "raised %s: %s on %s" % (errname(e), str(e)[:100], case), case); continue
+            if list(a) != [10 + b for b in range(B)] or lrn.learned != [(10 + b, 0.5, 1.0) for b in range(B)]:
+                ctx.fail(["mixed-batch", "wrong"], "predict gave %r, learn received %r on %s" % (list(a), lrn.learned, case), case)
+
+def mapping_kwargs_law(ctx):
+    """kwargs are a Mapping: a dict, a read-only proxy, a UserDict or a Mapping class of the learner's own are understood alike and handed back to learn"""
+    import types, collections
+    from coba.safety import SafeLearner
+    class MyMap(collections.abc.Mapping):
+        def __init__(self, d): self.d = d
+        def __getitem__(self, k): return self.d[k]
+        def __iter__(self): return iter(self.d)
+        def __len__(self): return len(self.d)
+    makers = {"dict": dict, "proxy": lambda d: types.MappingProxyType(dict(d)), "UserDict": collections.UserDict, "Mapping": MyMap, "OrderedDict": collections.OrderedDict}
+    acts = [7, 8, 9]
+    for mk_name, mk in makers.items():
+        for form in ("A+kw", "AP+kw", "PMF+kw"):
+            case = dict(what="kwargs mapping type", mapping=mk_name, format=form)
+            ctx.count("kwargs-mapping", repr(case), True)
+            class L:
+                def __init__(self): self.got = None
+                def predict(self, context, actions):
+                    payload = mk({"tag": 5})
+                    if form == "A+kw": return actions[1], payload
+                    if form == "AP+kw": return actions[1], 0.25, payload
+                    return [0.0, 1.0, 0.0], payload
+                def learn(self, context, action, reward, probability, **kw): self.got = (action, probability, kw)
+            try:
+                lrn = L(); safe = SafeLearner(lrn, 1)
+                a, p, kw = safe.predict(None, acts)
+                safe.learn(None, a, 1.0, p, **kw)
+            except Exception as e:
+                ctx.fail(["kwargs-mapping", "raises", errname(e)], "raised %s: %s on %s" % (errname(e), str(e)[:100], case), case); continue
+            ep = None if form == "A+kw" else 0.25 if form == "AP+kw" else 1.0
+            if a != 8 or p != ep or dict(kw) != {"tag": 5} or lrn.got != (8, ep, {"tag": 5}):
+                ctx.fail(["kwargs-mapping", "wrong"], "predict -> (%r, %r, %r), learn received %r; the learner named action 8, probability %r and kwargs {'tag': 5} on %s" % (a, p, dict(kw) if hasattr(kw, "keys") else kw, lrn.got, ep, case), case)
+
 def run(ctx):
     from coba.context import CobaContext, NullLogger
     CobaContext.logger = NullLogger()
     inplace_law(ctx)
+    mixed_batch_law(ctx)
+    mapping_kwargs_law(ctx)
     sets = action_sets()
     pts = []
     for (kind, n), acts in sets.items():
